@@ -73,6 +73,8 @@ def chi2_tls(model, beta, xi, x, dx, y, dy):
 
 
 def _steps(z, rel=1e-3, floor=0.1):
+    """Finite-difference steps: rel * max(|z|, floor); floor (scalar or one entry per component) is the magnitude below which a
+    component counts as 'zero' - the caller passes the natural size of the parameters when they are not O(1)."""
     return rel * np.maximum(np.abs(np.asarray(z, dtype=float)), floor)
 
 
@@ -82,6 +84,12 @@ def _finish(out, g, H, nshow):
     out['H'] = Hs
     out['asym'] = float(np.max(np.abs(H - H.T)) / (np.max(np.abs(H)) + 1e-300))
     out['cond'] = float(np.linalg.cond(Hs))
+    dg = np.abs(np.diag(Hs))
+    if np.all(dg > 0):
+        sc = 1.0 / np.sqrt(dg)
+        out['cond_scaled'] = float(np.linalg.cond(Hs * sc[:, None] * sc[None, :]))      # invariant under a change of units
+    else:
+        out['cond_scaled'] = float('inf')
     ev = np.linalg.eigvalsh(Hs)
     out['posdef'] = bool(ev[0] > 0)
     if out['posdef']:
@@ -91,7 +99,7 @@ def _finish(out, g, H, nshow):
     return out
 
 
-def ls_analysis(model, p, x, y, L, prior_idx=(), prior_val=(), prior_err=(), dy=None):
+def ls_analysis(model, p, x, y, L, prior_idx=(), prior_val=(), prior_err=(), dy=None, pfloor=0.1):
     """Gradient, Hessian and implicit-function sensitivities of an ordinary (possibly correlated, possibly
     prior-augmented) least-squares fit at the point p."""
     p = np.asarray(p, dtype=float)
@@ -103,7 +111,7 @@ def ls_analysis(model, p, x, y, L, prior_idx=(), prior_val=(), prior_err=(), dy=
     def grad(pp, yy=y, pr=pv):
         return cgrad(lambda q: chi2_ls(model, q, x, yy, L, prior_idx, pr, pe_), pp)
     g = grad(p)
-    H, dis = richardson_jac(grad, p, _steps(p))
+    H, dis = richardson_jac(grad, p, _steps(p, floor=pfloor))
     ystep = np.asarray(dy, dtype=float) if dy is not None else 1e-3 * np.maximum(np.abs(y), 1e-3)
     My = linear_jac(lambda yy: grad(p, yy=yy), y, ystep)
     out = dict(richardson_disagreement=dis)
@@ -119,7 +127,7 @@ def ls_analysis(model, p, x, y, L, prior_idx=(), prior_val=(), prior_err=(), dy=
     return out
 
 
-def tls_analysis(model, beta, xplus, x, dx, y, dy):
+def tls_analysis(model, beta, xplus, x, dx, y, dy, pfloor=0.1):
     """Total least squares: unknowns z = (beta, xi); sensitivities of z with respect to x and y."""
     beta = np.asarray(beta, dtype=float)
     x = np.asarray(x, dtype=float)
@@ -134,7 +142,7 @@ def tls_analysis(model, beta, xplus, x, dx, y, dy):
     def grad(z, xx=x, yy=y):
         return cgrad(lambda q: chi2_tls(model, q[:k], q[k:].reshape(shape), xx, dx, yy, dy), z)
     g = grad(z0)
-    steps = np.concatenate([_steps(beta), np.maximum(1e-3 * np.abs(x.ravel()), 1e-4)])
+    steps = np.concatenate([_steps(beta, floor=pfloor), np.maximum(1e-3 * np.abs(x.ravel()), 1e-4)])
     H, dis = richardson_jac(grad, z0, steps)
     Mx = linear_jac(lambda xx: grad(z0, xx=xx.reshape(shape)), x.ravel(), dx.ravel())
     My = linear_jac(lambda yy: grad(z0, yy=yy), y, dy)
